@@ -557,3 +557,38 @@ class Italian:
 
 LANGS = {'en': English(), 'fr': French(), 'es': Spanish(), 'pt': Portuguese(), 'de': German(), 'nl': Dutch(),
          'it': Italian()}
+
+
+# ordinal markers kept on the digit form, per language (singular/plural/gender forms), and the fraction form
+ORDINAL_MARKERS = {
+    'en': ['st', 'nd', 'rd', 'th', 'sts', 'nds', 'rds', 'ths'],
+    'fr': ['ème', 'èmes', 'er', 'ers', 'ère', 'ères', 'e', 'es', 'nd', 'nde'],
+    'es': ['º', 'ª', 'ᵒˢ', 'ᵃˢ', '.ᵉʳ'],
+    'pt': ['º', 'ª', 'ᵒˢ', 'ᵃˢ'],
+    'it': ['º', 'ª'],
+    'de': ['.'],
+    'nl': ['e', 'de', 'ste'],
+}
+FRACTION_PREFIX = {'es': '1/'}
+
+
+# small per-language word lists covering every category of number word (quick tier of the stream checks); the
+# thorough tier uses every behaviour class of the regenerated alphabet
+CORE_WORDS = {
+    'en': ['zero', 'one', 'two', 'nine', 'ten', 'eleven', 'twenty', 'ninety', 'twenty-one', 'hundred', 'thousand',
+           'million', 'billion', 'and', 'point', 'first', 'second', 'third', 'twentieth', 'hundredth', 'thirds', 'o'],
+    'fr': ['zéro', 'un', 'deux', 'neuf', 'dix', 'onze', 'vingt', 'soixante', 'quatre', 'vingt-et-un', 'cent', 'mille',
+           'million', 'milliard', 'et', 'virgule', 'premier', 'deuxième', 'vingtième', 'centième', 'unième'],
+    'es': ['cero', 'uno', 'un', 'dos', 'nueve', 'diez', 'once', 'veinte', 'veintiuno', 'treinta', 'ciento', 'cien',
+           'doscientos', 'mil', 'millón', 'millones', 'y', 'coma', 'primero', 'segundo', 'tercera', 'vigésimo',
+           'doceavo', 'primer'],
+    'pt': ['zero', 'um', 'dois', 'nove', 'dez', 'onze', 'vinte', 'trinta', 'cem', 'cento', 'duzentos', 'mil', 'milhão',
+           'milhões', 'e', 'vírgula', 'primeiro', 'segundo', 'vigésimo', 'décima', 'bilhões'],
+    'it': ['zero', 'uno', 'un', 'due', 'nove', 'dieci', 'undici', 'venti', 'ventuno', 'cento', 'duecento', 'mille',
+           'duemila', 'milione', 'milioni', 'miliardo', 'e', 'virgola', 'primo', 'secondo', 'ventesimo', 'centesimo'],
+    'de': ['null', 'eins', 'ein', 'zwei', 'neun', 'zehn', 'elf', 'zwanzig', 'einundzwanzig', 'hundert', 'zweihundert',
+           'tausend', 'million', 'millionen', 'milliarde', 'und', 'komma', 'erste', 'zweite', 'zwanzigste', 'hundertste'],
+    'nl': ['nul', 'een', 'twee', 'negen', 'tien', 'elf', 'twintig', 'eenentwintig', 'honderd', 'duizend', 'miljoen',
+           'miljard', 'en', 'komma', 'eerste', 'tweede', 'twintigste', 'honderdste', 'achtste'],
+}
+CORE_OTHERS = ['xyz', 'Abc', '12', 'a-b']
